@@ -304,7 +304,7 @@ def program_groups(ctx, groups):
     return out
 
 
-HYP_PROPS = {"C01", "C02", "C05", "C06", "C08", "C16"}
+HYP_PROPS = {"C01", "C02", "C04", "C05", "C06", "C08", "C11", "C16", "C20"}
 
 
 def check_hypotheses(ctx, cases):
@@ -338,6 +338,17 @@ def check_hypotheses(ctx, cases):
         for k2 in ("small", "pre"):
             if d.get(k2) == "0":
                 ctx.hist["hypothesis_not_met:" + k2] += 1
+        if d.get("clean") == "1":
+            ctx.hist["programs_in_clean_fragment"] += 1     # the both-directions theorems (Props/Clean, SearchComplete) apply
+        if d.get("nea") == "0" and "q" not in c.flags:
+            ctx.ob_problems.append(f"compiled program of {c.pattern!r} (flags {c.flags!r}) contains an empty atom: the search-completeness theorems do not apply")
+        if "i" in c.flags and "q" not in c.flags:
+            ctx.hist["case_blind_programs"] += 1
+            if d.get("cicl") == "0":
+                if "\\" in c.pattern:
+                    ctx.hist["hypothesis_not_met:class_escape_under_i"] += 1   # \p{Lu} etc. are case-sensitive by design
+                else:
+                    ctx.ob_problems.append(f"a class of the compiled program of {c.pattern!r} (flags {c.flags!r}) is not closed under case: the case-invariance theorems (C11b) do not apply")
         bad = [k2 for k2 in must if d.get(k2) == "0"]
         if bad and re.search(r"\d{10,}", c.pattern):
             # saturated lengths (quantifier bounds near 2^64) are outside wfOp by design: counted, not an alarm
@@ -958,6 +969,9 @@ def c02_oracle(ctx, g):
             out.append(f"reported span starts at {x}, the leftmost match from offset {pos} starts at {m[0]}")
             break
         ends = refmatch.all_ends(ast, s, f, x)
+        if ends is None:
+            ctx.hist["oracle_budget"] += 1
+            return []
         if y not in ends:
             out.append(f"reported span {(x, y)} is not in the match relation (possible ends from {x}: {ends})")
             break
